@@ -167,7 +167,11 @@ class C09(Prop):
         try:
             out, info = run_calls(flags, en, div, started, calls, rich)
         except Exception as e:
-            return {"key": "session-raises", "what": f"{type(e).__name__}: {e}", "expected": "-", "observed": "-"}
+            key = "does-not-terminate" if type(e).__name__ in ("RealTimeLimit", "TimeLimit", "Spin", "Deadlock") else "session-raises"
+            return {"key": key, "what": f"{type(e).__name__}: {str(e)[:300]}", "expected": "-", "observed": "-"}
+        if info["errors"] and any(k in info["errors"][0][1] for k in ("TimeLimit", "Spin", "Deadlock")):
+            return {"key": "does-not-terminate", "what": "a call did not return within the virtual time budget: " + repr(info["errors"][0]),
+                    "expected": "every call returns or raises in bounded time", "observed": info["errors"][0][1][:200]}
         if info["errors"]:
             return {"key": "thread-died", "what": "library thread died: " + repr(info["errors"][0]), "expected": "-", "observed": "-"}
         if info["live_end"]:
